@@ -261,7 +261,6 @@ func c06AllEventHooks() []eng.Hook {
 	return c06HooksEveryEvent(rand.New(rand.NewSource(6)))
 }
 
-
 // c06RichProduct: install x {post-renderer, capabilities from discovery, ClientOnly} with crds/,
 // CreateNamespace, a REST client getter, two lookups (once with the CRD already in the cluster),
 // and an upgrade with post-renderer + discovery + lookup, for each spelling.
